@@ -240,6 +240,60 @@ func c04() {
 				}
 			}
 		}
+		// a history: the default action of the very same Policy value is changed in place and the value compiled again -
+		// foreign-architecture and x32 events must get what the policy says now
+		if i%3 == 0 {
+			old := p.DefaultAction
+			for _, a := range []seccomp.Action{vlib.RetTrap, vlib.RetKillThread, vlib.RetLog, vlib.RetKillProcess} {
+				fresh := a != old
+				for _, g := range p.Syscalls {
+					if g.Action == a {
+						fresh = false
+					}
+				}
+				if fresh {
+					p.DefaultAction = a
+					break
+				}
+			}
+			if p.DefaultAction != old {
+				spec2 := vlib.SpecOf(p, t.Name)
+				c2 := vlib.Compile(p, t)
+				run.Count("recompilations_after_the_default_action_was_changed_in_place", 1)
+				if c2.OK() {
+					ref2 := vlib.NewRef(spec2.Policy(), t)
+					words := []uint32{0, 0xffffffff, t.ID ^ 1, t.ID ^ (1 << 30), allArch[r.Intn(len(allArch))]}
+					for _, aw := range words {
+						if aw == t.ID {
+							continue
+						}
+						for _, nr := range nrsForeign[:4] {
+							e := vlib.Event{NR: nr, Arch: aw, IP: pool[r.Intn(len(pool))], Args: vlib.FillArgs(r, pool)}
+							w := e.Words(false)
+							tr, err := c2.RunBoth(&w, nil, false)
+							want, _ := ref2.Decide(e)
+							local["foreign/after-default-changed-in-place"]++
+							if err != nil || tr.Ret != want {
+								run.Violation("foreign-arch-not-default", fmt.Sprintf("arch %s: after the default action of the same Policy value was changed in place from %#x to %#x and the value compiled again, the foreign-architecture event %v gets %#x (%v), the policy says %#x", t.Name, uint32(old), uint32(p.DefaultAction), e, tr.Ret, err, want),
+									map[string]any{"check": "C04", "policy": spec2, "event": e, "expected": want, "history": "compiled, default action changed in place, compiled again", "case": i})
+								return
+							}
+						}
+					}
+					if t.X32Guard {
+						e := vlib.Event{NR: 0x40000000 | listed[0], Arch: t.ID, Args: vlib.FillArgs(r, pool)}
+						w := e.Words(false)
+						if tr, err := c2.RunBoth(&w, nil, false); err != nil || tr.Ret != uint32(vlib.RetErrno|vlib.ENOSYS) {
+							run.Violation("x32-not-enosys", fmt.Sprintf("arch %s: after the default action was changed in place and the value compiled again, the x32 event %v gets %#x (%v)", t.Name, e, tr.Ret, err), map[string]any{"check": "C04", "policy": spec2, "event": e, "case": i})
+							return
+						}
+					}
+				}
+			}
+		}
+		if len(c.Raw) > 257 {
+			run.Count("programs_longer_than_257_instructions", 1)
+		}
 		// arch-jump encoding
 		form, jn := "short", -1
 		if len(c.Raw) > 2 && c.Raw[1].Op == 0x15 {
@@ -301,10 +355,10 @@ func c04() {
 		"kernel confirmation (int $0x80, nr|0x40000000, 386 child) is part of the thorough tier")
 	if run.Violations() == 0 {
 		run.Require("programs", 50)
-		run.Require("arch_jump_short", 1)
-		run.Require("arch_jump_long", 1)
-		run.Require("arch_jump_distance_255", 1)
-		run.Require("arch_jump_distance_256", 1)
+		// the counters arch_jump_* describe how the pinned compiler encodes the architecture jump; they are information, not
+		// requirements (a compiler that answers a foreign architecture differently is as right): what is required is that
+		// programs on both sides of the 8-bit distance were judged
+		run.Require("programs_longer_than_257_instructions", 10)
 		run.Require("events:x32/listed-number-with-bit", 1)
 		run.Require("events:foreign/one-bit-flip", 1)
 		run.Require("kernel:children", 10)
